@@ -4,6 +4,7 @@ package main
 
 import (
 	"fmt"
+	"math"
 	"strings"
 	"sync/atomic"
 	"time"
@@ -222,8 +223,163 @@ func checkSlicesWith(t trace, lhs, rhs []int, lcs func(a, b []int) int) *mc.Fail
 	return nil
 }
 
+// ---- other element types ----
+//
+// EditScript is generic over comparable element types and may only use ==.
+// For *int, == is pointer identity (two pointers to equal ints are different
+// elements); for float64, NaN differs from itself and +0 equals -0.
+
+type typedCase struct {
+	Type string `json:"type"` // ptr | float
+	L    []int  `json:"lhs"`  // indices into the pool of the type
+	R    []int  `json:"rhs"`
+}
+
+var (
+	ptrVals   = [3]int{0, 0, 1}
+	ptrPool   = []*int{&ptrVals[0], &ptrVals[1], &ptrVals[2]} // the first two point to equal values
+	floatPool = []float64{math.NaN(), 0, math.Copysign(0, -1), 1}
+)
+
+// checkScriptT is the oracle of the property for any comparable type, with ==
+// as the only notion of equality.
+func checkScriptT[T comparable](lhs, rhs []T, show func(T) string) *mc.Failure {
+	str := func(xs []T) string {
+		var parts []string
+		for _, x := range xs {
+			parts = append(parts, show(x))
+		}
+		return "[" + strings.Join(parts, " ") + "]"
+	}
+	es := slice.EditScript(lhs, rhs)
+	equal := len(lhs) == len(rhs)
+	for i := 0; equal && i < len(lhs); i++ {
+		equal = lhs[i] == rhs[i]
+	}
+	if equal != (len(es) == 0) {
+		return mc.Failf(0, "EditScript(%s,%s) has %d edits; must be empty exactly when the inputs are equal under ==", str(lhs), str(rhs), len(es))
+	}
+	if len(es) == 0 {
+		return nil
+	}
+	lp, rp, kept := 0, 0, 0
+	for i, e := range es {
+		switch e.Op {
+		case slice.OpEmit:
+			for j := range e.X {
+				if lp+j >= len(lhs) || rp+j >= len(rhs) || &e.X[j] != &lhs[lp+j] || lhs[lp+j] != rhs[rp+j] {
+					return mc.Failf(0, "EditScript(%s,%s): emit %d is not the span of lhs at offset %d equal to rhs at offset %d", str(lhs), str(rhs), i, lp, rp)
+				}
+			}
+			lp, rp, kept = lp+len(e.X), rp+len(e.X), kept+len(e.X)
+		case slice.OpDrop:
+			lp += len(e.X)
+		case slice.OpCopy:
+			for j := range e.Y {
+				if rp+j >= len(rhs) || &e.Y[j] != &rhs[rp+j] {
+					return mc.Failf(0, "EditScript(%s,%s): copy %d is not the span of rhs at offset %d", str(lhs), str(rhs), i, rp)
+				}
+			}
+			rp += len(e.Y)
+		case slice.OpReplace:
+			lp += len(e.X)
+			rp += len(e.Y)
+		}
+	}
+	if lp != len(lhs) || rp != len(rhs) {
+		return mc.Failf(0, "EditScript(%s,%s) consumes %d of %d and produces %d of %d elements", str(lhs), str(rhs), lp, len(lhs), rp, len(rhs))
+	}
+	// optimum under ==
+	prev, cur := make([]int, len(rhs)+1), make([]int, len(rhs)+1)
+	for i := 1; i <= len(lhs); i++ {
+		for j := 1; j <= len(rhs); j++ {
+			switch {
+			case lhs[i-1] == rhs[j-1]:
+				cur[j] = prev[j-1] + 1
+			case prev[j] >= cur[j-1]:
+				cur[j] = prev[j]
+			default:
+				cur[j] = cur[j-1]
+			}
+		}
+		prev, cur = cur, prev
+	}
+	if kept != prev[len(rhs)] {
+		return mc.Failf(0, "EditScript(%s,%s) keeps %d elements, a longest common subsequence under == has %d", str(lhs), str(rhs), kept, prev[len(rhs)])
+	}
+	return nil
+}
+
+func checkTyped(c typedCase) *mc.Failure {
+	return mc.GuardT("editscript-typed", c, func() *mc.Failure {
+		if c.Type == "ptr" {
+			l, r := make([]*int, len(c.L)), make([]*int, len(c.R))
+			for i, k := range c.L {
+				l[i] = ptrPool[k]
+			}
+			for i, k := range c.R {
+				r[i] = ptrPool[k]
+			}
+			return checkScriptT(l, r, func(p *int) string {
+				for k, q := range ptrPool {
+					if p == q {
+						return fmt.Sprintf("p%d(->%d)", k, *p)
+					}
+				}
+				return "?"
+			})
+		}
+		l, r := make([]float64, len(c.L)), make([]float64, len(c.R))
+		for i, k := range c.L {
+			l[i] = floatPool[k]
+		}
+		for i, k := range c.R {
+			r[i] = floatPool[k]
+		}
+		return checkScriptT(l, r, func(f float64) string {
+			if f == 0 && math.Signbit(f) {
+				return "-0"
+			}
+			return fmt.Sprint(f)
+		})
+	})
+}
+
 func main() {
 	mc.Main("C11", mc.Harness{
+		Name: "editscript-typed",
+		Explore: func(r *mc.Run) {
+			var cases []typedCase
+			ps := mc.AllSeqs(3, mc.Pick(r, 4, 5))
+			for _, a := range ps {
+				for _, b := range ps {
+					cases = append(cases, typedCase{"ptr", a, b})
+				}
+			}
+			fs := mc.AllSeqs(4, mc.Pick(r, 3, 4))
+			for _, a := range fs {
+				for _, b := range fs {
+					cases = append(cases, typedCase{"float", a, b})
+				}
+			}
+			mc.ParallelFor(len(cases), r.Workers, func(i int) {
+				if f := checkTyped(cases[i]); f != nil {
+					r.Violation(mc.Case{Harness: "editscript-typed", Trace: mc.J(cases[i]), Msg: f.Msg})
+				}
+			})
+			n := int64(len(cases))
+			r.AddEval(n, n, n, n)
+			r.Rule("EditScript on []*int (three pointers, two of them to equal values: == is identity) and []float64 (NaN, +0, -0, 1): every pair of sequences up to the bound; validity, span identity, minimality and emptiness judged with == alone")
+			r.Sample(typedCase{"ptr", []int{0, 2}, []int{1, 2}})
+		},
+		Replay: func(c mc.Case) *mc.Failure {
+			var t typedCase
+			if err := mc.Unmarshal(c.Trace, &t); err != nil {
+				return mc.Failf(-1, "bad trace: %v", err)
+			}
+			return checkTyped(t)
+		},
+	}, mc.Harness{
 		Name: "editscript",
 		Explore: func(r *mc.Run) {
 			type dom struct{ vals, maxLen int }
